@@ -116,15 +116,30 @@ type src struct {
 	f    float64
 	s    string
 	b    bool
+	// the Go INPUT type the value is handed to NewFrom / Merge as (goinput.go);
+	// Invalid: the widest one of the family (int64, uint64, float64). The value
+	// is always exactly representable in it: the mathematical value of the
+	// setting does not depend on the Go type that carried it.
+	gk    reflect.Kind
+	shape int // container the typed value travels in (goinput.go)
 }
 
 func (s src) goValue() interface{} {
 	switch s.kind {
 	case 'i':
+		if s.gk != reflect.Invalid {
+			return reflect.ValueOf(s.i).Convert(goTypes[s.gk]).Interface()
+		}
 		return s.i
 	case 'u':
+		if s.gk != reflect.Invalid {
+			return reflect.ValueOf(s.u).Convert(goTypes[s.gk]).Interface()
+		}
 		return s.u
 	case 'f':
+		if s.gk == reflect.Float32 {
+			return float32(s.f)
+		}
 		return s.f
 	case 's':
 		return s.s
@@ -147,6 +162,11 @@ func (s src) kindName() string {
 }
 
 func (s src) String() string {
+	if s.gk != reflect.Invalid {
+		t := s
+		t.gk = reflect.Invalid
+		return fmt.Sprintf("Go %s input %s of %s", s.gk, shapeNames[s.shape], t.String())
+	}
 	switch s.kind {
 	case 'i':
 		return fmt.Sprintf("int64(%d)", s.i)
@@ -350,7 +370,9 @@ func expectNum(n num, t *tkind) expectation {
 			}
 			return errExp("below-minfloat32")
 		}
-		return expectation{mode: mExact, flts: []float64{float64(float32(n.f))}, rounded: float64(float32(n.f)) != n.f}
+		// a value a float32 holds exactly must come back from a float32 target
+		exact := float64(float32(n.f)) == n.f
+		return expectation{mode: mExact, flts: []float64{float64(float32(n.f))}, rounded: !exact, strict: exact}
 	}
 	return expectation{mode: mUnpinned}
 }
